@@ -191,6 +191,9 @@ func propC17(a *Analysis, r *Registry) {
 			env := X.EnvFor(fn, "s", "o")
 			fc := X.Under(fn, X.AssumeCond(env.MustParse("o.Max<=0"), false), X.AssumeCond(env.MustParse("s.Min==s.Max"), false))
 			call := fc.TheCallTo("scale.(*TickOptions).FindLevel")
+			// the search runs with the caller's options as given (a rewritten copy can turn a limit
+			// into the MinLevel == MaxLevel == 0 "no limits" sentinel, or drop one)
+			b.EqRF(rB, name+"/options-as-given", a.W.InstrPos(call), fc.Val(call.Call.Args[0]), S.MakeFn("ref", env.Vars["o"].RF), "FindLevel is called on the TickOptions passed in, unchanged")
 			lvl, okv := tupleOf(fc, call, 0), tupleOf(fc, call, 1)
 			fc2 := X.Under(fn, X.AssumeCond(env.MustParse("o.Max<=0"), false), X.AssumeCond(env.MustParse("s.Min==s.Max"), false), X.AssumeEq(okv, S.True()))
 			// major and minor are the ticks of the ticker handed to FindLevel, at the level found and one below
@@ -219,6 +222,9 @@ func propC17(a *Analysis, r *Registry) {
 			base := []Assumption{X.AssumeCond(env.MustParse("s.Min==s.Max"), false), X.AssumeCond(env.MustParse("s.Max<s.Min"), false)}
 			fc := X.Under(fn, base...)
 			call := fc.TheCallTo("scale.(*TickOptions).FindLevel")
+			// the search runs with the caller's options as given (a rewritten copy can turn a limit
+			// into the MinLevel == MaxLevel == 0 "no limits" sentinel, or drop one)
+			b.EqRF(rB, name+"/options-as-given", a.W.InstrPos(call), fc.Val(call.Call.Args[0]), S.MakeFn("ref", env.Vars["o"].RF), "FindLevel is called on the TickOptions passed in, unchanged")
 			lvl, okv := tupleOf(fc, call, 0), tupleOf(fc, call, 1)
 			tk := fc.Val(call.Call.Args[1]).SingleAtom()
 			if tk == nil || tk.Name != "mk:linearTicker" || !tk.Args[1].Equal(S.True()) {
@@ -243,6 +249,9 @@ func propC17(a *Analysis, r *Registry) {
 			base := []Assumption{X.AssumeCond(env.MustParse("s.Min==s.Max"), false), X.AssumeCond(env.MustParse("s.Min<0"), false)}
 			fc := X.Under(fn, base...)
 			call := fc.TheCallTo("scale.(*TickOptions).FindLevel")
+			// the search runs with the caller's options as given (a rewritten copy can turn a limit
+			// into the MinLevel == MaxLevel == 0 "no limits" sentinel, or drop one)
+			b.EqRF(rB, name+"/options-as-given", a.W.InstrPos(call), fc.Val(call.Call.Args[0]), S.MakeFn("ref", env.Vars["o"].RF), "FindLevel is called on the TickOptions passed in, unchanged")
 			lvl, okv := tupleOf(fc, call, 0), tupleOf(fc, call, 1)
 			fcOK := X.Under(fn, append(base, X.AssumeEq(okv, S.True()))...)
 			e := X.EnvFor(fn, "s", "o")
